@@ -33,6 +33,8 @@ def kernel_inputs(kernel, shape):
     scales = np.array([1.0, 0.5, 0.25][:ng])
     if kernel == "gaussian":
         return [np.zeros((ni, nt, nr)), rates, times, centers, widths, scales, False, 1.0]
+    if kernel == "gaussian_equal_rows":  # neighbouring global indices with identical IRF parameters (equal shifts)
+        return [np.zeros((ni, nt, nr)), rates, times, np.repeat(centers[:1], ni, axis=0), np.repeat(widths[:1], ni, axis=0), scales, False, 1.0]
     if kernel == "gaussian_backsweep":
         return [np.zeros((ni, nt, nr)), rates, times, centers, widths, scales, True, 13.0]
     if kernel == "on_index":
@@ -57,6 +59,7 @@ def kernel_ref(kernel):
     return {
         "no_irf": (du, "calculate_decay_matrix_no_irf", ()),
         "gaussian": (gi, "calculate_decay_matrix_gaussian_irf", ("calculate_decay_matrix_gaussian_irf_on_index",)),
+        "gaussian_equal_rows": (gi, "calculate_decay_matrix_gaussian_irf", ("calculate_decay_matrix_gaussian_irf_on_index",)),
         "gaussian_backsweep": (gi, "calculate_decay_matrix_gaussian_irf", ("calculate_decay_matrix_gaussian_irf_on_index",)),
         "on_index": (gi, "calculate_decay_matrix_gaussian_irf_on_index", ()),
         "artifact": (ca, "_calculate_coherent_artifact_matrix", ("_calculate_coherent_artifact_matrix_on_index",)),
@@ -65,7 +68,7 @@ def kernel_ref(kernel):
     }[kernel]
 
 
-KERNELS = ["no_irf", "gaussian", "gaussian_backsweep", "on_index", "artifact", "artifact_on_index", "osc_no_irf"]
+KERNELS = ["no_irf", "gaussian", "gaussian_equal_rows", "gaussian_backsweep", "on_index", "artifact", "artifact_on_index", "osc_no_irf"]
 
 
 def shapes():
